@@ -1125,7 +1125,7 @@ def run_multistep_case(res, cfg):
             tn = t + dt
             if len(us) < Nst:
                 # documented start-up of the 2-step Adams-Moulton scheme: one trapezoidal step
-                xr, fr, sc = O.multistep_step([-1.0], [0.5, 0.5], us[-1:], fs[-1:], ts[-1:], tn, dt, split)
+                xr, fr, sc = O.multistep_step([-1.0], [0.5, 0.5], us[-1:], fs[-1:], ts[-1:], tn, dt, split, dts=[dt])
                 what = 'startup'
             else:
                 xr, fr, sc = O.multistep_step(alpha, beta, us[-Nst:], fs[-Nst:], ts[-Nst:], tn, dt, split)
